@@ -7,8 +7,10 @@
 // parse-time AddClass/AddInterface land in the TempVM; function statements executed on
 // tempVM.CreateContext => run-time AddFunc), lookup (all Go-API lookups on all VMs), new(vm,name),
 // call(vm,name). After the last op the full observation matrix
-//   VM x name x {GetClass, GetOrLoadClass, GetInterface, GetOrLoadInterface, LoadPkg, GetFunc,
-//                class_exists, class_exists(,false), interface_exists, function_exists, new, call, ::TAG}
+//
+//	VM x name x {GetClass, GetOrLoadClass, GetInterface, GetOrLoadInterface, LoadPkg, GetFunc,
+//	             class_exists, class_exists(,false), interface_exists, function_exists, new, call, ::TAG}
+//
 // is compared with a set model (base ∪ own additions), definitions told apart by identity.
 // Up to length L0 every history is executed (no merging); beyond it states are merged on
 // (model state, real observation vector).
@@ -21,7 +23,6 @@ import (
 	"flag"
 	"fmt"
 	"os"
-	"runtime/pprof"
 	"sort"
 	"strings"
 	"time"
@@ -34,18 +35,18 @@ import (
 const maxTemps = maxSlots - 1
 
 type rec struct {
-	Kind   string         `json:"kind"` // count | fail | keys | sample
-	N      int64          `json:"n,omitempty"`
-	ByLen  []int64        `json:"bylen,omitempty"`
-	Cats   map[string]int `json:"cats,omitempty"`
-	Key    string         `json:"key,omitempty"`
-	Clause string         `json:"clause,omitempty"`
-	Size   int            `json:"size,omitempty"`
-	Case   any            `json:"case,omitempty"`
-	Detail string         `json:"detail,omitempty"`
-	Keys   []keyed        `json:"keys,omitempty"`
-	Failing int64         `json:"failing,omitempty"`
-	Skipped int64         `json:"skipped,omitempty"`
+	Kind    string         `json:"kind"` // count | fail | keys | sample
+	N       int64          `json:"n,omitempty"`
+	ByLen   []int64        `json:"bylen,omitempty"`
+	Cats    map[string]int `json:"cats,omitempty"`
+	Key     string         `json:"key,omitempty"`
+	Clause  string         `json:"clause,omitempty"`
+	Size    int            `json:"size,omitempty"`
+	Case    any            `json:"case,omitempty"`
+	Detail  string         `json:"detail,omitempty"`
+	Keys    []keyed        `json:"keys,omitempty"`
+	Failing int64          `json:"failing,omitempty"`
+	Skipped int64          `json:"skipped,omitempty"`
 }
 
 type keyed struct {
@@ -54,10 +55,10 @@ type keyed struct {
 }
 
 type caseJSON struct {
-	Ops     []Op     `json:"ops"`
-	Text    string   `json:"text"`
-	Names   names    `json:"names"`
-	Fails   []failure `json:"failures,omitempty"`
+	Ops   []Op      `json:"ops"`
+	Text  string    `json:"text"`
+	Names names     `json:"names"`
+	Fails []failure `json:"failures,omitempty"`
 }
 
 // ---- worker side ------------------------------------------------------------------------------
@@ -65,16 +66,16 @@ type caseJSON struct {
 type wstate struct {
 	deadline time.Time
 	skipped  int64
-	minimal [][]Op // 1-minimal failing histories found so far in this worker
-	nm      names
-	dir     string
-	memo    map[string][]string // history -> distinct violated relation labels
-	emitted map[string]bool
-	n       int64
-	byLen   []int64
-	failing int64
-	cats    map[string]int
-	w       *pool.W
+	minimal  [][]Op // 1-minimal failing histories found so far in this worker
+	nm       names
+	dir      string
+	memo     map[string][]string // history -> distinct violated relation labels
+	emitted  map[string]bool
+	n        int64
+	byLen    []int64
+	failing  int64
+	cats     map[string]int
+	w        *pool.W
 }
 
 func newWState(w *pool.W) *wstate {
@@ -824,19 +825,6 @@ func replay(c *ev.Check, dir string) {
 			fmt.Println("no violation")
 		}
 		return
-	}
-	if n := os.Getenv("VERIF_C12_BENCH"); n != "" {
-		var k int
-		fmt.Sscan(n, &k)
-		f, _ := os.Create("/tmp/c12s3/cpu.prof")
-		pprof.StartCPUProfile(f)
-		t0 := time.Now()
-		for i := 0; i < k; i++ {
-			execute(h, nm, dir, false)
-		}
-		pprof.StopCPUProfile()
-		f.Close()
-		fmt.Println("bench:", time.Since(t0)/time.Duration(k), "per execution")
 	}
 	r := execute(h, nm, dir, true)
 	fmt.Println("history:", histString(h))
